@@ -1,4 +1,5 @@
 import JellyGenerated.FuncsGen
+import JellyModel.Stream
 /-!
 # The TRANSLATED module-level functions equal the model
 
@@ -69,5 +70,39 @@ theorem split_iri_eq (s : String) : Gen.split_iri s = .ok (splitIri s) := by
       simp [bind, Except.bind, pure, Except.pure, h1, h2, lastIndexOf_take h2, String.ofList_append]
     | none =>
       simp [bind, Except.bind, pure, Except.pure, h1, h2]
+
+
+/-! ## `pyjelly/options.py`: the validators, for ALL arguments (the generated tables cover the declared enum values) -/
+
+theorem validate_type_compatibility_eq (p l : Nat) :
+    Gen.validate_type_compatibility p l = if typesCompatible p l then .ok () else .error .jassertion := by
+  unfold Gen.validate_type_compatibility typesCompatible
+  by_cases hp : p = 0
+  · simp [hp, bind, Except.bind, pure, Except.pure]
+  · by_cases hl : l = 0
+    · simp [hl, bind, Except.bind, pure, Except.pure]
+    · by_cases h1 : p = 1 <;> by_cases h3 : l = 3 <;> by_cases h13 : l = 13 <;> by_cases hl1 : l = 1 <;>
+        simp [hp, hl, h1, h3, h13, hl1, bind, Except.bind, pure, Except.pure, throw, throwThe, MonadExceptOf.throw]
+      have e1 : (p == 1) = false := by simpa using h1
+      have e2 : (l == 3) = false := by simpa using h3
+      have e3 : (l == 13) = false := by simpa using h13
+      have e4 : (l == 1) = false := by simpa using hl1
+      simp [e1, e2, e3, e4]
+
+theorem stream_types_flat_eq (l : Nat) : Gen.StreamTypes.flat l = .ok (logicalFlat l) := by
+  unfold Gen.StreamTypes.flat logicalFlat
+  by_cases h1 : l = 1 <;> by_cases h2 : l = 2 <;> simp [h1, h2, bind, Except.bind, pure, Except.pure]
+
+theorem lookup_preset_post_init_eq (n p d : Nat) :
+    Gen.LookupPreset.__post_init__ n
+      = if ({ maxNames := n, maxPrefixes := p, maxDatatypes := d } : Preset).valid then .ok () else .error .conformance := by
+  unfold Gen.LookupPreset.__post_init__ Preset.valid MIN_NAME_LOOKUP_SIZE
+  by_cases h : n < 8 <;> simp [h, bind, Except.bind, pure, Except.pure, throw, throwThe, MonadExceptOf.throw] <;> omega
+
+theorem stream_parameters_version_eq (nd : Bool) (v : Nat) (g s dl : Bool) (nm : String) :
+    Gen.StreamParameters.__post_init__ nd v
+      = .ok ({ generalized := g, rdfStar := s, delimited := dl, namespaceDeclarations := nd, streamName := nm } : Params).version := by
+  unfold Gen.StreamParameters.__post_init__ Params.version
+  cases nd <;> simp [bind, Except.bind, pure, Except.pure]
 
 end Jelly.Translated
